@@ -148,16 +148,17 @@ def _check_merged_once(ctx: Ctx) -> None:
     loops = [l for l in walk_no_nested(fn.node) if isinstance(l, ast.For)]
     generic = []
     for l in loops:
-        v = l.target.id if isinstance(l.target, ast.Name) else None
+        # loop variables: `for name in ..` or `for name, result_list in <mapping>.items()` (the merge goes through any of them)
+        tvs = {x.id for x in ast.walk(l.target) if isinstance(x, ast.Name)}
         for c in ast.walk(l):
             if isinstance(c, ast.Call) and isinstance(c.func, ast.Attribute) and c.func.attr == 'merge' and c not in dedicated \
-                    and v and any(isinstance(x, ast.Name) and x.id == v for x in ast.walk(c.func.value)):
+                    and tvs and any(isinstance(x, ast.Name) and x.id in tvs for x in ast.walk(c.func.value)):
                 # is the call guarded by a test that excludes the special name?
                 excl = False
                 for i in ast.walk(l):
                     if isinstance(i, ast.If) and any(c is x for s in i.body for x in ast.walk(s)):
                         t = norm(i.test).replace(' ', '').replace('"', "'")
-                        if t in ("%s!='%s'" % (v, SPECIAL), "'%s'!=%s" % (SPECIAL, v), "not%s=='%s'" % (v, SPECIAL)):
+                        if any(t in ("%s!='%s'" % (v, SPECIAL), "'%s'!=%s" % (SPECIAL, v), "not%s=='%s'" % (v, SPECIAL)) for v in tvs):
                             excl = True
                 # ... or the loop runs over a selection that already left the special name out
                 from ..astutil import expander
